@@ -131,7 +131,16 @@ let reasm_suite () =
   with End_of_file -> ())
 
 (* ---------------------------------------------------------------- suite: agent *)
-let nn s = n_of_int (int_of_string s)
+let nn s =
+  if String.length s <= 18 then n_of_int (int_of_string s)
+  else begin
+    (* beyond OCaml's native int (usize::MAX limits, u64 instants): decimal digits folded with the extracted N arithmetic *)
+    let acc = ref N0 in
+    String.iter (fun ch ->
+        if ch < '0' || ch > '9' then failwith "int_of_string";
+        acc := N.add (N.mul !acc (n_of_int 10)) (n_of_int (Char.code ch - 48))) s;
+    !acc
+  end
 let alg_of_int = function 1 -> MD5 | 2 -> SHA256 | n -> OtherAlg (n_of_int n)
 let int_of_alg = function MD5 -> 1 | SHA256 -> 2 | OtherAlg n -> int_of_n n
 let parse_keyd s =
@@ -321,6 +330,10 @@ let agent_suite () =
                emit (Printf.sprintf "S %d 0 C08 lt-integrity-key" i)
              end;
              if not (mon_C13_ltcred cc st.ma_lt mo o) then emit (Printf.sprintf "S %d 0 C13 lt-credential-attributes" i);
+             (* C08: a plain 401 / 438 challenge for an outstanding request is answered by the retry notification *)
+             if not (mon_C08_retry cc st.ma_core st.ma_lt mo o) then emit (Printf.sprintf "S %d 0 C08 lt-challenge-not-retried" i);
+             (* C06: before any response time has been measured the timeout in effect is the configured RTO *)
+             if not (mon_C06_initial c cc st.ma_rtt mo o) then emit (Printf.sprintf "S %d 0 C06 initial-rto" i);
              let (s', vs) = monitor_step c cc st mo o in
              ms := Some s'; prev := Some key;
              if List.mem "pwleak=1" (split_sp (if n > 2 then String.sub line 2 (n - 2) else "")) then
